@@ -9,7 +9,7 @@ import random
 import re
 
 CHUNKS = ["", "a = 0\n", "print(a)\nb = a + 1\n", "def f(x):\n    return x\n", "x = (\n", "print(undefined_name)\n",
-          "1/0\n", "\n\n", "y = 1"]
+          "1/0\n", "\n\n", "y = 1", "z = 1\x0c\nw = 2\n", "for q in 5:\n    pass\n"]
 MARK = "##### Part %d\n"
 
 
@@ -107,6 +107,43 @@ def check_file(chunks, independent, extra_calls):
             fails.append(('restore', 'main code after stop_sections is not the original text'))
     except Exception as e:
         fails.append(('restore', 'stop_sections raised %s' % type(e).__name__))
+    # resolving right after separating (prologue active) must also restore the file
+    from pedal.resolvers.simple import resolve
+    report2 = fresh(text)
+    separate_into_sections(independent=independent, report=report2)
+    try:
+        report2.execute_hooks('pedal.resolvers', 'resolve')
+        if report2.submission.main_code != text:
+            fails.append(('restore_on_resolve', 'main code after the resolve hook (prologue active) is not the original text'))
+    except Exception as e:
+        fails.append(('restore_on_resolve', 'resolve hook raised %s' % type(e).__name__))
+    # TIFA issues inside an independent section carry whole-file lines
+    if independent and k_total >= 1:
+        from pedal.tifa import tifa_analysis
+        report3 = fresh(text)
+        separate_into_sections(independent=True, report=report3)
+        for k in range(1, k_total + 1):
+            next_section(report=report3)
+            chunk = pieces[2 * k]
+            import ast
+            try:
+                tree = ast.parse(chunk)
+            except SyntaxError:
+                continue
+            off = text[:spans[k - 1][1]].count("\n")
+            n0 = len(report3.feedback) + len(report3.ignored_feedback)
+            try:
+                tifa_analysis(report=report3)
+            except Exception as e:
+                fails.append(('tifa_raises', 'tifa_analysis raised %s' % type(e).__name__))
+                continue
+            chunk_lines = chunk.count("\n") + 1
+            for f in (report3.feedback + report3.ignored_feedback)[n0:]:
+                loc = getattr(f, 'location', None)
+                if loc is not None and getattr(loc, 'line', None) is not None and f.tool == 'tifa':
+                    if not (off + 1 <= loc.line <= off + chunk_lines):
+                        fails.append(('tifa_line', 'TIFA issue %s at line %r, the section spans lines %d-%d' % (
+                            f.label, loc.line, off + 1, off + chunk_lines)))
     return fails
 
 
